@@ -73,6 +73,7 @@ def _same_seq(got, ref):
 def polygon_rule(ctx, R):
     n = 0
     for b in _polygon_bodies(ctx, R):
+        signed_remainder_rule(ctx, R, [b])
         lists = _vertex_lists(b)
         if not lists:
             ctx.note(R, 'polygon vertices are not built as one array of Coord literals in %s: formula not evaluated' % b.npath)
@@ -301,4 +302,40 @@ def extent_rule(ctx, R):
         ctx.check(rf.same(W * H), R, b, 'area=(min right-max left)*(min bottom-max top)', repr(rf),
                   'the axis-aligned intersection is %r, not (min(l.left+l.width, r.left+r.width) - max(l.left, r.left)) * '
                   '(min(l.top+l.height, r.top+r.height) - max(l.top, r.top))' % rf)
+    return n
+
+
+def signed_remainder_rule(ctx, R, bodies):
+    """belief rule (Engler et al.): a `match x % n` on a SIGNED remainder whose explicit arms are n-1 of the residues
+    0..n-1 and whose wildcard arm stands for the last one believes the remainder is never negative; Rust's `%` keeps the
+    sign of the dividend, so negative dividends fall into the wildcard arm with the wrong case.  Accepted when the
+    dividend is visibly non-negative (cast from an unsigned type, abs(), rem_euclid) or when no wildcard arm is live."""
+    n = 0
+    for b in bodies:
+        eb = None
+        for i in sorted(b.live_blocks()):
+            t = b.blocks[i]['t']
+            if t['k'] != 'switch' or not str(t.get('ty', '')).startswith('i') or t.get('ty') in ('isize?',):
+                continue
+            eb = eb or ExprBuilder(b)
+            e = eb.operand(t['discr'])
+            if not (e.kind == 'bin' and e.name == 'Rem' and e.args[1].kind == 'const'):
+                continue
+            try:
+                mod = int(e.args[1].const_value())
+            except (TypeError, ValueError):
+                continue
+            vals = sorted(int(v) for v, _ in t['targets'])
+            other = t.get('otherwise')
+            live_other = other is not None and other in b.live_blocks() and other not in b.diverging()
+            dividend = e.args[0]
+            nonneg = any(y.kind == 'call' and y.name.rsplit('::', 1)[-1] in ('abs', 'rem_euclid', 'unsigned_abs')
+                         for y in dividend.walk()) or (dividend.kind == 'cast' and str(getattr(dividend.args[0], 'name', '')).startswith('u'))
+            n += 1
+            ctx.read(b)
+            suspicious = live_other and mod > 1 and all(v >= 0 for v in vals) and len(vals) == mod - 1 and not nonneg
+            ctx.check(not suspicious, R, b, 'signed-remainder-residues', '%r matched against %s + wildcard' % (e, vals),
+                      '`%r` is matched against %s with a wildcard arm for the remaining residue, but the remainder of a '
+                      'negative dividend is negative in Rust: negative values take the wildcard arm meant for residue %s'
+                      % (e, vals, sorted(set(range(mod)) - set(vals))), t.get('ln', ''))
     return n
